@@ -131,6 +131,11 @@ def gen(rng, tier):
     for i in range(n):
         # every tenth history first looks at the fresh buffer: printbuf_new gives the empty string, NUL-terminated
         yield {"lines": (["peek"] if i % 10 == 0 else []) + gen_history(rng, rng.choice([3, 8, 20, 40]))}
+    # capacities of a MiB and more: a growth rule may treat large buffers differently (round-8 seed C19-13: 1.5x growth above
+    # 1 MiB without the clamp to the request); one fill to get there, then a fill / append that ends beyond 1.5x and beyond 2x
+    for big in ((1 << 20,) if tier == "quick" else (1 << 20, (1 << 20) + 5, 1300000)):   # the harness prints contents up to 4 MiB
+        for more in (big // 2 + big // 8, big + 100):
+            yield {"lines": ["set 0 120 %d" % big, "set -1 121 %d" % more, "app " + hexs(b"tail"), "set -1 122 %d" % (more // 2)], "noshrink": True}
     depth = 2 if tier == "quick" else 4
     for st in STARTS:
         for d in range(1, depth + 1):
